@@ -94,6 +94,13 @@ fn main() {
                     println!("{:?} @{} -> {:?} check={}", t, i, h.highlight(t, i), h.highlight_check(t, i + 1));
                 }
             }
+            other if other.starts_with("session:") => {
+                // forms separated by ";;" are evaluated one by one in the same VM, continuing after failures
+                for part in other["session:".len()..].split(";;") {
+                    let r = eval_all(&mut vm, part);
+                    println!("  {} => {:?} frames={:?}", part.trim(), r, vm.last_stacktrace().map(|t| t.frames.len()));
+                }
+            }
             other => {
                 println!("{:?}", eval_all(&mut vm, other));
             }
